@@ -95,7 +95,6 @@
 
 ; ---- goals and bodies -------------------------------------------------------------------------
 (declare-datatypes ((SP 0)) (((SPTrue) (SPFail) (SPCut) (SPTerm (sptt TT)))))   ; TRUE | FAIL | CUT | termpredicate
-(declare-fun predid (TA) Int)                ; identity of the goal a term stands for (BPred)
 (declare-fun cutlbl (TA) Int)
 ; an atom used as a goal is the functor of arity 0
 (define-fun functorof ((t TA)) TA (ite ((_ is TAAtom) t) (TAFun (taval t) tanil) t))
@@ -136,8 +135,6 @@
 ; ---- clauses ----------------------------------------------------------------------------------
 (declare-datatypes ((CL 0)) (((CLFact (clhead SP)) (CLRule (clrhead SP) (clbody PE)))))   ; head '.'  |  head ':-' body '.'
 (define-fun clhd ((c CL)) SP (ite ((_ is CLRule) c) (clrhead c) (clhead c)))
-(declare-fun predta (Int) TA)                ; the term a goal identity stands for (predid is injective)
-(assert (forall ((t TA)) (! (= (predta (predid t)) t) :pattern ((predid t)))))
 ; Python (ASCII) identifier - same definition as spec/strings.smt2
 (define-fun IDENT () RegLan (re.++ (re.union (re.range "a" "z") (re.range "A" "Z") (str.to_re "_"))
                                    (re.* (re.union (re.range "a" "z") (re.range "A" "Z") (re.range "0" "9") (str.to_re "_")))))
